@@ -50,6 +50,11 @@ KW_ORDER = {  # keyword → positional normalisation for a few well-known callab
     "uuid5": ("namespace", "name"),
     "tobinstr": ("start", "end", "pad", "size"),
     "open": ("file", "mode"),
+    "frombytes": ("bytes", "offset"),   # intelhex.IntelHex.frombytes(bytes, offset=0)
+    "bin2hex": ("fin", "fout", "offset"),   # intelhex.bin2hex(fin, fout, offset=0)
+    "write_hex_file": ("f",),
+    "from_bytes": ("bytes", "byteorder"),
+    "getsize": ("filename",),
 }
 
 
